@@ -117,6 +117,23 @@ def run(ck, an, tier):
                 f"whether an item is traded also depends on {key_} (`{ast.unparse(n_.test)[:60]}`), which the reviewed conditions do not decide" + (": the threshold test is not the strict `<`" if strictness else ""))
         for clause, msgs in bad.items():
             ck.check(not msgs, "GUARD", clause, subj, fa.loc(loop), what[clause], "; ".join(msgs[:3]), construct="trade loop of make_trades", witness=msgs[:8])
+    # nothing outside the loop decides for all items at once: a return that can be reached without passing the trade loop is accepted
+    # only when it is guarded by the imbalance being empty (then the loop would have produced nothing anyway)
+    ln = fa.node_of(loop)
+    if ln is not None and not fa.cfg.every_path_from_passes(fa.cfg.entry.id, {ln.id}):
+        from sa.lib import returns_in as _rets
+        early = []
+        for r_ in _rets(fa):
+            rn = fa.node_of(r_)
+            if rn is None or any(p_ is loop for p_ in parents(r_)) or fa.cfg.every_path_from_passes(fa.cfg.entry.id, {ln.id}, to=rn.id):
+                continue
+            gs = fa.path_guards(r_)
+            fine = bool(gs) and all(g_[0] == "truthy" and g_[1] in (imb, f"len({imb})") for g_ in gs)
+            if not fine:
+                early.append(f"line {r_.lineno}: `{stmt_text(r_)[:50]}` under {[cmp_key(g_)[:90] for g_ in gs][:3]}")
+        ck.check(not early, "GUARD", "S1.no-skip-before-the-loop", subj, fa.loc(loop), "make_trades reaches the per-item decision for every rebalance (no shortcut return decides for all items at once, "
+                 "other than for an empty imbalance)", "make_trades can return without entering the trade loop: " + "; ".join(early[:3]) +
+                 " - held-but-untargeted contracts and above-threshold items are then not traded", construct="trade loop of make_trades", witness=early[:8])
     # Trade args
     kw = {k.arg: k.value for k in t.keywords}
     ck.check("contract" in kw and fa.sym.canon(kw["contract"]) == Cn.key(), "ARGFLOW", "S1.trade-contract", subj, fa.loc(t), "the trade is for the loop's contract",
@@ -133,6 +150,11 @@ def run(ck, an, tier):
     allocation_filters(ck, an, "S5")
     trade_guards(ck, an, "S5")
     plumbing(ck, an)
+    from rules import C13, C17, ledger
+    # the trades a rebalance emits are the ones make_trades built for THIS request on the current state (no memo / shortcut in between)
+    C13.s4(ledger._Only(Renamed(ck, "C13:"), {"build-before-execute", "executes-built-list", "transacts-loop-item", "not-a-generator"}), an)
+    # the target the emission rule sees is the requested one: a continuous action is the allocation itself (no rounding / clipping before the threshold test)
+    C17.s4(ledger._Only(Renamed(ck, "C17:"), {"box-allocation-is-action"}), an)
 
 
 def _p(s):
